@@ -48,6 +48,13 @@ func (s *sessionManager) join(message *Message, activeChan chan<- *ActiveMessage
 	}
 	ch := make(chan error)
 	defer close(ch)
+	// 会话保存一份自己的固定头 write协程下发指令时会改它(流水号 消息ID 消息体长度)
+	// 而第一个报文还在reader协程的OnJoinEvent回调和使用者手里
+	header := *message.Header
+	if message.Header.Property != nil {
+		property := *message.Header.Property
+		header.Property = &property
+	}
 	s.operationFuncChan <- func(record map[string]*session) {
 		if v, ok := record[key]; ok {
 			ch <- errors.Join(fmt.Errorf("key[%s] join time[%s]",
@@ -55,7 +62,7 @@ func (s *sessionManager) join(message *Message, activeChan chan<- *ActiveMessage
 			return
 		}
 		record[key] = &session{
-			header:        message.Header,
+			header:        &header,
 			joinTime:      time.Now(),
 			activeMsgChan: activeChan,
 		}
